@@ -269,12 +269,12 @@ Definition dirs_ok (t : ctree) : Prop := NoDup (ct_dirs t) /\ Forall no_slash (c
 Definition report_dirs (t : ctree) : list string := filter (fun d => negb (is_ignore_dir d)) (ct_dirs t).
 
 Definition dir_cells (o : copts) (t : ctree) (d : string) : list nat :=
-  map (lang_code o [d] t) (base_keys o t).
+  map (lang_code o [d] t) (header_keys o t).
 
 Lemma language_map_shape : forall o t,
     dirs_ok t ->
     language_map o t =
-    map (fun d => (d, dir_lang_map (base_keys o t) (scc_run o [d] t))) (report_dirs t).
+    map (fun d => (d, dir_lang_map (header_keys o t) (scc_run o [d] t))) (report_dirs t).
 Proof.
   intros o t [Hnd Hns]. unfold language_map, process_dirs. fold (report_dirs t).
   assert (Hsub : forall d, In d (report_dirs t) -> no_slash d).
@@ -282,7 +282,7 @@ Proof.
     now apply Hns. }
   assert (Hnd' : NoDup (report_dirs t)) by (now apply NoDup_filter).
   revert Hsub Hnd'. generalize (report_dirs t). intros ds Hsub Hnd'.
-  transitivity (fold_left (fun m d => mput m d (dir_lang_map (base_keys o t) (scc_run o [d] t))) ds []).
+  transitivity (fold_left (fun m d => mput m d (dir_lang_map (header_keys o t) (scc_run o [d] t))) ds []).
   - generalize (@nil (string * gomap lsum)). induction ds as [|d ds IH]; intros m; simpl; [reflexivity|].
     unfold build_language_map at 2. simpl. rewrite dir_name_roundtrip by (apply Hsub; now left).
     apply IH; [intros; apply Hsub; now right|now inversion Hnd'].
@@ -291,27 +291,74 @@ Proof.
 Qed.
 
 (* MASTER SHAPE of cloc.csv: the header, then one record per reported directory made of its name,
-   the sum of its cells and one cell per header key = code lines of that language in its own run *)
+   the sum of its cells and one cell per header key = code lines of that language in its own run; header keys = the whole-tree
+   run's languages followed by the languages only a per-directory run names (MergeDirKeys) *)
 Theorem bydir_shape : forall o t,
     dirs_ok t ->
     process_by_directory o t =
-    ("package" :: "summary" :: base_keys o t) ::
+    ("package" :: "summary" :: header_keys o t) ::
     map (fun d => d :: string_of_nat (list_sum (dir_cells o t d)) :: map string_of_nat (dir_cells o t d))
         (report_dirs t).
 Proof.
   intros o t H. unfold process_by_directory, build_cloc_csv_data. rewrite (language_map_shape o t H).
   f_equal. rewrite map_map. apply map_ext. intros d. unfold csv_row. simpl.
   rewrite row_codes_dir_lang_map, fold_add_is_list_sum.
-  assert (E : map (fun key => code_of key (scc_run o [d] t)) (base_keys o t) = dir_cells o t d).
+  assert (E : map (fun key => code_of key (scc_run o [d] t)) (header_keys o t) = dir_cells o t d).
   { unfold dir_cells. apply map_ext. intros key. apply code_of_scc_run. }
   now rewrite E.
+Qed.
+
+(* ------------------------------------------------------------------ MergeDirKeys *)
+Lemma add_keys_spec : forall news keys,
+    NoDup keys ->
+    NoDup (add_keys keys news) /\ (forall x, In x (add_keys keys news) <-> In x keys \/ In x news).
+Proof.
+  unfold add_keys. induction news as [|n news IH]; intros keys Hnd; simpl.
+  - split; [exact Hnd|]. intros x. tauto.
+  - destruct (str_mem n keys) eqn:E.
+    + destruct (IH keys Hnd) as [H1 H2]. split; [exact H1|]. intros x. rewrite H2.
+      apply str_mem_In in E. split; [tauto|]. intros [H|[H|H]]; subst; auto.
+    + assert (Hn : ~ In n keys) by (intros H; apply str_mem_In in H; congruence).
+      assert (Hnd' : NoDup (keys ++ [n])).
+      { eapply Permutation_NoDup; [apply Permutation_cons_append|]. now constructor. }
+      destruct (IH (keys ++ [n]) Hnd') as [H1 H2]. split; [exact H1|]. intros x.
+      rewrite H2, in_app_iff. simpl. tauto.
+Qed.
+
+Lemma merge_dir_keys_spec : forall files keys,
+    NoDup keys ->
+    NoDup (merge_dir_keys keys files) /\
+    (forall x, In x (merge_dir_keys keys files) <->
+               In x keys \/ exists file, In file files /\ In x (build_base_key (snd file))).
+Proof.
+  unfold merge_dir_keys. induction files as [|file files IH]; intros keys Hnd; simpl.
+  - split; [exact Hnd|]. intros x. split; [tauto|]. intros [H|[file [[] _]]]. exact H.
+  - destruct (add_keys_spec (build_base_key (snd file)) keys Hnd) as [A1 A2].
+    destruct (IH _ A1) as [H1 H2]. split; [exact H1|]. intros x. rewrite H2, A2. split.
+    + intros [[H|H]|[f [Hf Hx]]]; [now left|right; exists file; auto|right; exists f; auto].
+    + intros [H|[f [[<-|Hf] Hx]]]; [tauto|tauto|right; exists f; auto].
+Qed.
+
+Lemma header_keys_nodup : forall o t, NoDup (header_keys o t).
+Proof. intros o t. apply merge_dir_keys_spec. apply scc_run_names_nodup. Qed.
+
+Lemma header_keys_in : forall o t l,
+    In l (header_keys o t) <->
+    In l (base_keys o t) \/ exists d, In d (report_dirs t) /\ In l (map ls_name (scc_run o [d] t)).
+Proof.
+  intros o t l. unfold header_keys.
+  rewrite (proj2 (merge_dir_keys_spec (process_dirs o t) (base_keys o t) (scc_run_names_nodup o [] t))).
+  unfold process_dirs. fold (report_dirs t). split; (intros [H|H]; [now left|right]).
+  - destruct H as [file [Hf Hx]]. apply in_map_iff in Hf. destruct Hf as [d [<- Hd]]. exists d. auto.
+  - destruct H as [d [Hd Hx]]. exists (output_file d, scc_run o [d] t). split; [|exact Hx].
+    apply in_map_iff. exists d. auto.
 Qed.
 
 (* ------------------------------------------------------------------ by-directory: the clauses, Prop level *)
 Definition csv_header (o : copts) (t : ctree) : list string := hd [] (process_by_directory o t).
 Definition csv_rows (o : copts) (t : ctree) : list (list string) := tl (process_by_directory o t).
 
-Lemma csv_header_eq : forall o t, csv_header o t = "package" :: "summary" :: base_keys o t.
+Lemma csv_header_eq : forall o t, csv_header o t = "package" :: "summary" :: header_keys o t.
 Proof. reflexivity. Qed.
 
 Lemma csv_rows_eq : forall o t,
@@ -340,18 +387,38 @@ Qed.
 Theorem rows_nodup : forall o t, dirs_ok t -> NoDup (map row_name (csv_rows o t)).
 Proof. intros o t H. rewrite (rows_exact o t H). apply NoDup_filter. apply H. Qed.
 
-(* header_languages: the header names, once each, exactly the languages of the files the whole-tree
-   run counts *)
+(* header_languages: the header names, once each, exactly the languages of the files that the
+   whole-tree run or the run of a reported directory counts *)
 Theorem header_languages : forall o t,
     firstn 2 (csv_header o t) = ["package"; "summary"] /\
     NoDup (skipn 2 (csv_header o t)) /\
     forall l, In l (skipn 2 (csv_header o t)) <->
-              exists f, In f (ct_files t) /\ visible o [] f = true /\ cf_lang f = l.
+              exists f, In f (ct_files t) /\ cf_lang f = l /\
+                        (visible o [] f = true \/
+                         exists d, In d (report_dirs t) /\ visible o [d] f = true).
 Proof.
   intros o t. rewrite csv_header_eq. simpl. split; [reflexivity|]. split.
-  - apply scc_run_names_nodup.
-  - intros l. unfold base_keys, build_base_key. rewrite scc_run_names. unfold run_files.
-    split; intros [f H]; exists f; rewrite filter_In in *; tauto.
+  - apply header_keys_nodup.
+  - intros l. rewrite header_keys_in. unfold base_keys, build_base_key. rewrite scc_run_names.
+    unfold run_files. split.
+    + intros [[f [Hf Hl]]|[d [Hd Hx]]].
+      * apply filter_In in Hf. exists f. tauto.
+      * apply scc_run_names in Hx. destruct Hx as [f [Hf Hl]]. unfold run_files in Hf.
+        apply filter_In in Hf. exists f. split; [tauto|]. split; [exact Hl|]. right. exists d. tauto.
+    + intros [f [Hf [Hl [Hv|[d [Hd Hv]]]]]].
+      * left. exists f. rewrite filter_In. tauto.
+      * right. exists d. split; [exact Hd|]. apply scc_run_names. exists f. unfold run_files.
+        rewrite filter_In. tauto.
+Qed.
+
+(* in particular the languages of a reported subdirectory are named whatever its name is, also when
+   the whole-tree run skips it because its path ends with an --exclude-dir pattern (repo.git) *)
+Theorem header_names_dir_languages : forall o t d f,
+    In d (report_dirs t) -> In f (ct_files t) -> visible o [d] f = true ->
+    In (cf_lang f) (skipn 2 (csv_header o t)).
+Proof.
+  intros o t d f Hd Hf Hv. apply (proj2 (proj2 (header_languages o t))). exists f.
+  split; [exact Hf|]. split; [reflexivity|]. right. exists d. auto.
 Qed.
 
 (* cell_correct: in the row of directory d, the cell under header language k is the number of code
@@ -458,15 +525,54 @@ Proof.
   destruct (cf_path f); [congruence|]. simpl. now rewrite andb_true_r.
 Qed.
 
+(* the weaker hypothesis of the by-directory theorems: the deny list is not hit BELOW the immediate
+   subdirectories (nor by a file lying directly in DIR); a subdirectory's own name may hit it (repo.git) *)
+Definition below_ok (root : string) (path : list string) : bool :=
+  walk_ok root (match path with [_] => 0 | _ => 1 end) path.
+
+Definition tree_clean_below (o : copts) (t : ctree) : Prop :=
+  forall f, In f (ct_files t) -> cf_path f <> [] /\ below_ok (co_root o) (cf_path f) = true.
+
+Definition tree_clean_below_b (o : copts) (t : ctree) : bool :=
+  forallb (fun f => match cf_path f with [] => false | _ => true end && below_ok (co_root o) (cf_path f))
+          (ct_files t).
+
+Lemma tree_clean_below_b_sound : forall o t, tree_clean_below_b o t = true -> tree_clean_below o t.
+Proof.
+  intros o t H f Hf. unfold tree_clean_below_b in H. rewrite forallb_forall in H. specialize (H f Hf).
+  apply andb_true_iff in H. destruct H as [H1 H2]. split; [|exact H2].
+  destruct (cf_path f); [discriminate|discriminate].
+Qed.
+
+Lemma tree_clean_weaken : forall o t, tree_clean o t -> tree_clean_below o t.
+Proof.
+  intros o t H f Hf. destruct (H f Hf) as [Hne Hw]. split; [exact Hne|]. unfold below_ok.
+  destruct (cf_path f) as [|a [|b r]]; try exact Hw; now apply walk_ok_weaken.
+Qed.
+
+Lemma visible_in_scope : forall o p f, visible o p f = true -> in_scope o f = true.
+Proof.
+  intros o p f H. unfold visible in H. rewrite !andb_true_iff in H. rewrite <- ext_ok_in_scope. tauto.
+Qed.
+
 Lemma visible_dir_clean : forall o t d f,
-    tree_clean o t -> In f (ct_files t) -> visible o [d] f = in_scope o f && under d f.
+    tree_clean_below o t -> In f (ct_files t) -> visible o [d] f = in_scope o f && under d f.
 Proof.
   intros o t d f Hc Hf. destruct (Hc f Hf) as [Hne Hw]. unfold visible.
-  change (List.length [d]) with 1. rewrite (walk_ok_weaken _ _ Hw), ext_ok_in_scope, andb_true_r. unfold under, top_dir.
-  destruct (cf_path f) as [|a [|b r]]; simpl.
+  change (List.length [d]) with 1. rewrite ext_ok_in_scope. unfold under, top_dir. unfold below_ok in Hw.
+  destruct (cf_path f) as [|a [|b r]].
   - congruence.
-  - rewrite !andb_false_r. reflexivity.
-  - rewrite !andb_true_r. apply andb_comm.
+  - simpl. rewrite !andb_false_r. reflexivity.
+  - rewrite Hw. simpl. rewrite !andb_true_r. apply andb_comm.
+Qed.
+
+Lemma visible_root_file_clean : forall o t f,
+    tree_clean_below o t -> In f (ct_files t) -> top_dir f = None -> visible o [] f = in_scope o f.
+Proof.
+  intros o t f Hc Hf Ht. destruct (Hc f Hf) as [Hne Hw]. unfold visible.
+  change (List.length (@nil string)) with 0. rewrite ext_ok_in_scope. unfold top_dir in Ht. unfold below_ok in Hw.
+  destruct (cf_path f) as [|a [|b r]]; [congruence| |discriminate].
+  rewrite Hw. simpl. now rewrite andb_true_r.
 Qed.
 
 Lemma filter_ext_in : forall (A : Type) (p q : A -> bool) l,
@@ -478,7 +584,7 @@ Qed.
 
 (* cell = the code lines of that language inside that subdirectory (ground truth of the spec) *)
 Theorem cell_matches_ground_truth : forall o t d k,
-    tree_clean o t -> lang_code o [d] t k = expected_cell o t d k.
+    tree_clean_below o t -> lang_code o [d] t k = expected_cell o t d k.
 Proof.
   intros o t d k Hc. unfold lang_code, expected_cell, sum_code, lang_files, run_files.
   f_equal. f_equal.
@@ -553,6 +659,19 @@ Proof.
   destruct (p x); simpl; [destruct (q x)|]; now rewrite IH.
 Qed.
 
+(* every file below an immediate subdirectory lives in a listed subdirectory *)
+Definition files_in_dirs (t : ctree) : Prop :=
+  forall f d, In f (ct_files t) -> top_dir f = Some d -> In d (ct_dirs t).
+
+Definition files_in_dirs_b (t : ctree) : bool :=
+  forallb (fun f => match top_dir f with Some d => str_mem d (ct_dirs t) | None => true end) (ct_files t).
+
+Lemma files_in_dirs_b_sound : forall t, files_in_dirs_b t = true -> files_in_dirs t.
+Proof.
+  intros t H f d Hf Hd. unfold files_in_dirs_b in H. rewrite forallb_forall in H. specialize (H f Hf).
+  rewrite Hd in H. now apply str_mem_In.
+Qed.
+
 Lemma counted_in_scope : forall o f, counted o f = true -> in_scope o f = true.
 Proof. intros o f H. unfold counted in H. apply andb_true_iff in H. tauto. Qed.
 
@@ -565,32 +684,35 @@ Proof.
 Qed.
 
 Lemma dir_cells_total : forall o t d,
-    tree_clean o t -> list_sum (dir_cells o t d) = expected_total o t d.
+    tree_clean_below o t -> In d (report_dirs t) -> list_sum (dir_cells o t d) = expected_total o t d.
 Proof.
-  intros o t d Hc. unfold dir_cells, expected_total.
+  intros o t d Hc Hd. unfold dir_cells, expected_total.
   rewrite (map_ext _ (expected_cell o t d)) by (intros k; now apply cell_matches_ground_truth).
   unfold expected_cell.
   rewrite (map_ext _ (fun k => list_sum (map cf_code (filter (fun f => String.eqb (cf_lang f) k)
                                  (filter (fun f => in_scope o f && under d f) (ct_files t)))))).
   2:{ intros k. now rewrite filter_filter. }
   apply sum_by_keys.
-  - apply scc_run_names_nodup.
-  - intros f Hf. apply filter_In in Hf. destruct Hf as [Hf Hs]. apply andb_true_iff in Hs.
-    apply (base_keys_in o t f Hc Hf). tauto.
+  - apply header_keys_nodup.
+  - intros f Hf. apply filter_In in Hf. destruct Hf as [Hf Hs].
+    apply header_keys_in. right. exists d. split; [exact Hd|]. apply scc_run_names. exists f.
+    split; [|reflexivity]. unfold run_files. apply filter_In. split; [exact Hf|].
+    now rewrite (visible_dir_clean o t d f Hc Hf).
 Qed.
 
 Lemma combine_map_r : forall (A B : Type) (g : A -> B) l, combine l (map g l) = map (fun x => (x, g x)) l.
 Proof. intros A B g. induction l as [|x l IH]; simpl; [reflexivity|]. now rewrite IH. Qed.
 
 (* the specification's decider finds no failing clause in the model's by-directory report, for every
-   clean tree (languages found only in an IDE/report directory included: their column is all zero) *)
+   tree whose deny-list hits (if any) are names of immediate subdirectories (languages found only in an
+   IDE/report directory included: their column is all zero) *)
 Theorem bydir_model_meets_spec : forall o t,
-    dirs_ok t -> tree_clean o t ->
+    dirs_ok t -> tree_clean_below o t -> files_in_dirs t ->
     c16_bydir_verdict o t (csv_header o t) (csv_rows o t) = [].
 Proof.
-  intros o t Hd Hc. unfold c16_bydir_verdict.
+  intros o t Hd Hc Hfd. unfold c16_bydir_verdict.
   rewrite (csv_rows_eq o t Hd), csv_header_eq. cbn [skipn firstn].
-  set (keys := base_keys o t).
+  set (keys := header_keys o t).
   set (row := fun d => d :: string_of_nat (list_sum (dir_cells o t d)) :: map string_of_nat (dir_cells o t d)).
   assert (Hcells : forall d b, cells_ok b o t keys (row d) = true).
   { intros d b. unfold cells_ok, row, row_cells, row_name. cbn [skipn hd]. unfold dir_cells. fold keys.
@@ -599,8 +721,8 @@ Proof.
     destruct (Bool.eqb _ b); [apply String.eqb_refl|reflexivity]. }
   repeat rewrite clause_true; try reflexivity.
   - (* summary_is_total *)
-    rewrite forallb_forall. intros r Hr. apply in_map_iff in Hr. destruct Hr as [d [<- _]].
-    unfold row, row_summary, row_name. cbn [nth hd]. rewrite (dir_cells_total o t d Hc).
+    rewrite forallb_forall. intros r Hr. apply in_map_iff in Hr. destruct Hr as [d [<- Hdin]].
+    unfold row, row_summary, row_name. cbn [nth hd]. rewrite (dir_cells_total o t d Hc Hdin).
     apply String.eqb_refl.
   - (* summary_is_sum *)
     rewrite forallb_forall. intros r Hr. apply in_map_iff in Hr. destruct Hr as [d [<- _]].
@@ -621,16 +743,30 @@ Proof.
     rewrite map_map. unfold row at 1. cbn [row_name hd]. rewrite map_id, expected_rows_report_dirs.
     apply same_names_refl.
   - (* header_known_languages *)
-    rewrite forallb_forall. intros l Hl. unfold keys, base_keys, build_base_key in Hl.
-    rewrite scc_run_names in Hl. destruct Hl as [f [Hf <-]]. unfold run_files in Hf.
-    apply filter_In in Hf. destruct Hf as [Hf Hv]. rewrite (visible_base_clean o t f Hc Hf) in Hv.
-    apply existsb_exists. exists f. split; [exact Hf|]. now rewrite Hv, String.eqb_refl.
+    rewrite forallb_forall. intros l Hl. unfold keys in Hl. apply header_keys_in in Hl.
+    assert (Hex : exists p f, In f (run_files o p t) /\ cf_lang f = l).
+    { destruct Hl as [Hl|[d [_ Hl]]].
+      - unfold base_keys, build_base_key in Hl. apply scc_run_names in Hl. destruct Hl as [f H]. eauto.
+      - apply scc_run_names in Hl. destruct Hl as [f H]. eauto. }
+    destruct Hex as [p [f [Hf <-]]]. unfold run_files in Hf. apply filter_In in Hf. destruct Hf as [Hf Hv].
+    apply existsb_exists. exists f. split; [exact Hf|].
+    now rewrite (visible_in_scope o p f Hv), String.eqb_refl.
   - (* header_languages *)
     apply andb_true_iff. split.
     + rewrite forallb_forall. intros l Hl. apply in_map_iff in Hl. destruct Hl as [f [<- Hf]].
-      apply filter_In in Hf. destruct Hf as [Hf Hcf]. apply str_mem_In.
-      apply (base_keys_in o t f Hc Hf). now apply counted_in_scope.
-    + apply nodup_b_true. apply scc_run_names_nodup.
+      apply filter_In in Hf. destruct Hf as [Hf Hcf]. apply str_mem_In. unfold keys.
+      apply header_keys_in. unfold counted in Hcf. apply andb_true_iff in Hcf. destruct Hcf as [Hs Hk].
+      destruct (top_dir f) as [d|] eqn:Etd.
+      * right. exists d. split.
+        -- unfold report_dirs. apply filter_In. split; [now apply (Hfd f d)|].
+           now rewrite is_ignore_dir_skipped.
+        -- apply scc_run_names. exists f. split; [|reflexivity]. unfold run_files. apply filter_In.
+           split; [exact Hf|]. rewrite (visible_dir_clean o t d f Hc Hf), Hs. unfold under. rewrite Etd.
+           now rewrite String.eqb_refl.
+      * left. unfold base_keys, build_base_key. apply scc_run_names. exists f. split; [|reflexivity].
+        unfold run_files. apply filter_In. split; [exact Hf|].
+        now rewrite (visible_root_file_clean o t f Hc Hf Etd).
+    + apply nodup_b_true. apply header_keys_nodup.
 Qed.
 
 (* ------------------------------------------------------------------ top-file *)
@@ -838,18 +974,28 @@ Proof.
   split; vm_compute; reflexivity.
 Qed.
 
-(* REFUTED (D-C16-3): "every language of a reported subdirectory has a column and the summary is the
-   subdirectory's total".  A subdirectory whose name ends with .git/.hg/.svn is skipped by the whole-tree
-   run (suffix match of the deny list) but counted by its own run *)
+(* FIXED (D-C16-3, commit 5353339): a subdirectory whose name ends with .git/.hg/.svn is skipped by the
+   whole-tree run (suffix match of the deny list) but counted by its own run; MergeDirKeys names its
+   languages in the header, so its row is complete.  The strong hypothesis [tree_clean] fails on this
+   tree, the by-directory theorems only need [tree_clean_below] *)
 Definition vcs_opts : copts := mkCOpts "t" "t" [] 30.
-Definition vcs_tree : ctree := mkCTree ["old.svn"] [mkf ["old.svn"; "g.sh"] "Shell" "sh" 3].
+Definition vcs_tree : ctree :=
+  mkCTree ["a"; "old.svn"]
+          [mkf ["a"; "x.go"] "Go" "go" 2; mkf ["old.svn"; "g.sh"] "Shell" "sh" 3; mkf ["old.svn"; "y.go"] "Go" "go" 1].
 
-Lemma vcs_suffix_refuted :
-  process_by_directory vcs_opts vcs_tree = [["package"; "summary"]; ["old.svn"; "0"]] /\
-  lang_code vcs_opts ["old.svn"] vcs_tree "Shell" = 3 /\
-  c16_bydir_verdict vcs_opts vcs_tree (csv_header vcs_opts vcs_tree) (csv_rows vcs_opts vcs_tree)
-  = ["header_languages"; "summary_is_total"].
-Proof. repeat split; vm_compute; reflexivity. Qed.
+Lemma vcs_suffix_accepted :
+  dirs_ok vcs_tree /\ tree_clean_below vcs_opts vcs_tree /\ files_in_dirs vcs_tree /\
+  tree_clean_b vcs_opts vcs_tree = false /\
+  base_keys vcs_opts vcs_tree = ["Go"] /\
+  process_by_directory vcs_opts vcs_tree =
+  [["package"; "summary"; "Go"; "Shell"]; ["a"; "2"; "2"; "0"]; ["old.svn"; "4"; "1"; "3"]] /\
+  c16_bydir_verdict vcs_opts vcs_tree (csv_header vcs_opts vcs_tree) (csv_rows vcs_opts vcs_tree) = [].
+Proof.
+  split; [apply dirs_ok_b_sound; vm_compute; reflexivity|].
+  split; [apply tree_clean_below_b_sound; vm_compute; reflexivity|].
+  split; [apply files_in_dirs_b_sound; vm_compute; reflexivity|].
+  repeat split; vm_compute; reflexivity.
+Qed.
 
 (* ------------------------------------------------------------------ the decider accepts the model's top-file report *)
 Lemma spec_location_loc_str : forall o f, spec_location o f = loc_str (co_root o) (cf_path f).
@@ -1046,19 +1192,6 @@ Proof.
 Qed.
 
 (* ------------------------------------------------------------------ "... and agree with the whole-tree count" *)
-(* every file below an immediate subdirectory lives in a listed subdirectory *)
-Definition files_in_dirs (t : ctree) : Prop :=
-  forall f d, In f (ct_files t) -> top_dir f = Some d -> In d (ct_dirs t).
-
-Definition files_in_dirs_b (t : ctree) : bool :=
-  forallb (fun f => match top_dir f with Some d => str_mem d (ct_dirs t) | None => true end) (ct_files t).
-
-Lemma files_in_dirs_b_sound : forall t, files_in_dirs_b t = true -> files_in_dirs t.
-Proof.
-  intros t H f d Hf Hd. unfold files_in_dirs_b in H. rewrite forallb_forall in H. specialize (H f Hf).
-  rewrite Hd in H. now apply str_mem_In.
-Qed.
-
 (* code lines of language L in the files lying directly in DIR *)
 Definition root_code (o : copts) (t : ctree) (l : string) : nat :=
   sum_code (filter (fun f => in_scope o f && match top_dir f with None => true | Some _ => false end &&
@@ -1118,7 +1251,7 @@ Theorem columns_agree_with_base : forall o t l,
 Proof.
   intros o t l [Hnd _] Hc Hfd.
   rewrite !(map_ext (fun d => lang_code o [d] t l) (fun d => expected_cell o t d l))
-    by (intros d; now apply cell_matches_ground_truth).
+    by (intros d; apply cell_matches_ground_truth; now apply tree_clean_weaken).
   unfold report_dirs. pose proof (list_sum_filter_split string is_ignore_dir (fun d => expected_cell o t d l) (ct_dirs t)) as Hs.
   unfold lang_code, lang_files, run_files. rewrite filter_filter.
   rewrite (filter_ext_in _ (fun f => visible o [] f && String.eqb (cf_lang f) l)
@@ -1130,3 +1263,21 @@ Qed.
 
 Lemma ex_tree_files_in_dirs : files_in_dirs ex_tree.
 Proof. apply files_in_dirs_b_sound. vm_compute. reflexivity. Qed.
+
+(* MergeDirKeys only appends: the header starts with the whole-tree run's languages *)
+Lemma add_keys_prefix : forall news keys, exists extra, add_keys keys news = keys ++ extra.
+Proof.
+  unfold add_keys. induction news as [|n news IH]; intros keys; simpl.
+  - exists []. now rewrite app_nil_r.
+  - destruct (str_mem n keys); [apply IH|]. destruct (IH (keys ++ [n])) as [e He].
+    exists (n :: e). rewrite He, <- app_assoc. reflexivity.
+Qed.
+
+Lemma header_keys_prefix : forall o t, exists extra, header_keys o t = base_keys o t ++ extra.
+Proof.
+  intros o t. unfold header_keys, merge_dir_keys. generalize (process_dirs o t) (base_keys o t).
+  induction l as [|file files IH]; intros keys; simpl.
+  - exists []. now rewrite app_nil_r.
+  - destruct (add_keys_prefix (build_base_key (snd file)) keys) as [e1 He1]. rewrite He1.
+    destruct (IH (keys ++ e1)) as [e2 He2]. exists (e1 ++ e2). now rewrite He2, app_assoc.
+Qed.
